@@ -484,13 +484,11 @@ def check_layout(ctx, fn, res, det, spec, vec):
                       dict(data, dims=list(res.dims)))
         return False
     if not grid and not any(c in res.coords for c in ("x", "y", "z")):
-        # point detectors: the implementation indexes its result by the detector's `point` dimension (same
-        # length, same order - the order is what the mock-pipeline stage checks) and carries no x/y/z at all;
-        # judged a missing convenience, not a wrong coordinate (see the report): counted, not alarmed
-        ctx.count("layout:point-result-without-xyz-coords")
-        if res.sizes["point"] != det.sizes["point"]:
-            ctx.violation("coords:" + fn, "%s result has %d points, the detector %d" % (fn, res.sizes["point"], det.sizes["point"]), data)
-            return False
+        # the result of a point detector has to carry the detector's positions along `point` ("lies on exactly the
+        # detector's pixel coordinates"; _pack_field_into_xarray's docstring says the same)
+        ctx.violation("coords:%s:point-detector" % fn, "%s result on a point detector carries no x / y / z coordinates: the values "
+                      "cannot be placed without the detector" % fn, data)
+        return False
     else:
       for c in ("x", "y", "z"):
         if c not in res.coords or not np.array_equal(np.asarray(res[c].values, dtype=float), np.asarray(det[c].values, dtype=float)):
